@@ -340,7 +340,7 @@ class Runner:
             rec = dict(entry=ent.label(), id=o["id"], kind=kind, path=o["path"], solver=r["solver"],
                        secs=round(r["secs"], 3), answers=r["answers"], note=o.get("note"))
             if kind == "witness":
-                self.witness[ent.label()]["sat"] = r["verdict"] == "sat"
+                self.witness[ent.label()]["sat"] = True if r["verdict"] == "sat" else False if r["verdict"] == "unsat" else None
                 rec["status"] = "witness-" + r["verdict"]
                 self.results.append(rec)
                 continue
@@ -532,6 +532,9 @@ class Runner:
         vac = [k for k, w in self.witness.items() if not w["reached"] or w["sat"] is False]
         for k in vac:
             self.log("[witness] VACUOUS harness entry %s" % k)
+        for k, w in self.witness.items():
+            if w["reached"] and w["sat"] is None:
+                self.log("[witness] reachability of %s not decided within the cap (path condition neither sat nor unsat)" % k)
         seen = set()
         for kf, rec in self.known_hits:
             key = kf.get("what")
